@@ -1117,6 +1117,12 @@ def str_of_float(x):
 def bi_float(eng, st, pos, kw):
     v = pos[0]
     if isinstance(v, VConc) and isinstance(v.py, str):
+        if float(v.py) != float(v.py):
+            # float("nan") is no extended real: a contract module may give it an opaque value (hook "float_nan"), else unsupported
+            h = eng.hooks.get("float_nan")
+            if h:
+                return h(eng, st)
+            raise Unsupported("float('nan') is not an extended real")
         return [("ok", st, xr_const(float(v.py)))]
     if isinstance(v, VStr):
         res = []
